@@ -171,12 +171,17 @@ class KCall:
                 self.argmap[kw.arg] = kw.value
 
 
+UNIT_RESOLVERS = []      # functions RepoFacts -> names of helper kernels that some rule treats as a unit (filled in by the rule modules)
+
+
 class RepoFacts:
     def __init__(self, ctx):
         self.ctx = ctx
         self.model = ctx.model
         self.effects = Effects(self.model)
         self._walks = {}
+        self._units = None
+        self.extra_units = set()
         self._kcalls = None
         self._consts = {}
         self._param_attr = None
@@ -310,8 +315,27 @@ class RepoFacts:
         return out
 
     # -- walks ----------------------------------------------------------
+    def units(self):
+        """Kernels the rules treat as a unit (a call event with an opaque result).  Every other kernel-to-kernel call inside the
+        package is walked inline, so that "extract function" refactorings of a kernel's body change no verdict."""
+        if self._units is None:
+            u = set()
+            for short in self.model.modules:
+                for k in self.model.kernels(short):
+                    if short == "hashes" or any(not c.caller.is_kernel for c in self.calls_to(k)):
+                        u.add(k.name)
+            self._units = u
+            for r in UNIT_RESOLVERS:
+                try:
+                    u |= set(r(self))
+                except AnalysisError:
+                    pass
+        return self._units | self.extra_units
+
     def walk(self, func, **kw):
-        key = (func.key, tuple(sorted(kw)))
+        if func.is_kernel and "no_inline" not in kw:
+            kw["no_inline"] = frozenset(self.units())
+        key = (func.key, tuple(sorted(kw)), tuple(sorted(kw.get("no_inline") or ())))
         if key not in self._walks:
             consts = self.consts_for(func) if func.is_kernel else {}
             opts = dict(consts=consts, effects=self.effects)
